@@ -85,6 +85,7 @@ for b in small_bytes + rand_bytes:
         chk("int-hex", int(hx, 16) == be(b) and int(hx.decode("ascii"), 16) == be(b), b)
         chk("head-tail-val", be(b) == b[0] * 256 ** (len(b) - 1) + be(b[1:]) and 0 <= b[0] <= 255, b)
         chk("list-iter-bytes", list(iter(b)) == [x for x in b] and bytes(list(iter(b))) == b, b)
+        chk("from-bytes-of-int-list", int.from_bytes(list(b), "big") == be(b) and int.from_bytes(list(b), "little") == int.from_bytes(b, "little"), b)
         chk("join-map-hex2", "".join(["%02x" % x for x in b]) == hx.decode("ascii"), b)
     else:
         ok = False
